@@ -1,4 +1,5 @@
 import SMV.Lemmas.Rtc
+import SMV.Lemmas.NoSends
 /-!
 # C04 — A failing callback leaves a consistent, usable machine (run-to-completion mode)
 
@@ -138,5 +139,33 @@ theorem C04_send_error_usable (m : Machine) (kind : Kind) (fuel : Nat) (ev : Eve
   have hl' : (enqueue ev c).1.locked = false := hl
   have := C04_process_error m fuel _ hl' e h he
   exact ⟨this.1, this.2.1⟩
+
+/-! ## `rtc=False`
+
+Without nested sends the handler is irrelevant (`Lemmas/NoSends`): the state after a failing activation is the
+source's or the target's, by phase, in the depth-first mode too. (A nested event run from inside a callback under
+`rtc=False` changes the state on its own account; what the *outer* transition contributes is still this.) -/
+
+theorem C04_state_two_values_any {m : Machine} (hs : NoSends m) (h : Nested) (t : Trigger) (tr : Transn) (c : Cfg) :
+    (activate h m t tr c).1.cur = c.cur ∨ (activate h m t tr c).1.cur = some (stateVal m tr.target) := by
+  rw [activate_any hs h]; exact C04_state_two_values m t tr c
+
+theorem activatePost_cur_any {m : Machine} (hs : NoSends m) (h : Nested) (t : Trigger) (tr : Transn) (c : Cfg) :
+    (activatePost h m t tr c).1.cur = some (stateVal m tr.target) := by
+  rw [activatePost_any hs h]; exact activatePost_cur m t tr c
+
+/-- non-RTC `processing_loop` (`popTrigger`): an exception raised while the popped event is processed reaches the
+caller as it is, and nothing stays locked (this mode never takes the lock) -/
+theorem C04_nonrtc_propagates (h : Nested) (m : Machine) (c : Cfg) (t : Trigger) (q : List Trigger)
+    (hq : c.queue = t :: q) (e : Exc) (he : (trigger h m t { c with queue := q }).2 = .error e) :
+    (popTrigger h m c).2 = .error e ∧ (popTrigger h m c).1 = (trigger h m t { c with queue := q }).1 := by
+  unfold popTrigger
+  rw [hq]
+  simp only
+  generalize trigger h m t { c with queue := q } = r at he
+  obtain ⟨c1, r1⟩ := r
+  simp only at he
+  subst he
+  exact ⟨rfl, rfl⟩
 
 end SMV
